@@ -13,6 +13,7 @@ use super::call::Call;
 ///
 /// TODO(martin): is it weird to type state and then erase it?
 #[derive(Debug)]
+#[cfg_attr(hoot_verif, derive(Clone))]
 pub(crate) enum CallHolder<B> {
     WithoutBody(Call<WithoutBody, B>),
     WithBody(Call<WithBody, B>),
@@ -125,5 +126,19 @@ impl<B> CallHolder<B> {
 
         let call = call.into_send_body();
         let _ = mem::replace(self, CallHolder::WithBody(call));
+    }
+}
+
+
+#[cfg(hoot_verif)]
+impl<B> CallHolder<B> {
+    pub(crate) fn verif_fingerprint(&self) -> String {
+        match self {
+            CallHolder::WithoutBody(v) => format!("WithoutBody({})", v.verif_fingerprint()),
+            CallHolder::WithBody(v) => format!("WithBody({})", v.verif_fingerprint()),
+            CallHolder::RecvResponse(v) => format!("RecvResponse({})", v.verif_fingerprint()),
+            CallHolder::RecvBody(v) => format!("RecvBody({})", v.verif_fingerprint()),
+            CallHolder::Empty => "Empty".to_string(),
+        }
     }
 }
